@@ -106,6 +106,9 @@ func GenConfig(r *rand.Rand, o GenOpt) *Config {
 					rule.Equal = []string{gen.Pick(r, gen.LabelNames)}
 				}
 			}
+			if r.Intn(2) == 0 {
+				rule.Name = "rule" // several rules may carry the same name
+			}
 			c.Inhibit = append(c.Inhibit, rule)
 		}
 	}
